@@ -589,37 +589,23 @@ def parse_send_payload(p):
 
 
 def expectation(case, body):
-    """what the statement requires of a SendRRData request: 'reply' (supported service to an existing target over an
-    acceptable route), 'refuse' (unsupported / unroutable), 'either' (the statement does not decide)"""
+    """what the statement requires of a SendRRData request: 'reply' (supported service over an acceptable route),
+    'refuse' (unsupported service / refused route path), 'either' (the statement does not decide)"""
     w = body["wrap"]
     exp = "reply"
     if w is not None:
         cfg = case["route"]
         if cfg is not None and w["route"] and [list(s) for s in (cfg or [])] != [list(s) for s in w["route"]]:
             return "refuse"
-        if (w["cls"], w["ins"]) != (6, 1):
+        if w["cls"] != 6:
             # an Unconnected Send is a service of the Connection Manager: to any other Object it cannot be routed
-            exp = "either"
+            return "refuse"
+        if w["ins"] != 1:
+            exp = "either"       # the class-level instance, or an instance that may not exist
     if "unk" in body:
         return "refuse"
-    req = body["req"]
-    names = {t["name"].lower() for t in case["tags"]}
-    objs = {(2, 1)} | {(a[0], a[1]) for a in case.get("addrs", {}).values()}
-    path = req["path"]
-    syms = [v for k, v in path if k == "s"]
-    nums = {k: v for k, v in path if k in ("c", "i")}
-    if syms and not nums:
-        known = ".".join(syms).lower() in names
-        if not known and any(".".join(syms[:j]).lower() in names for j in range(1, len(syms))):
-            return "either"
-    elif nums and not syms and set(nums) == {"c", "i"}:
-        known = (nums["c"], nums["i"]) in objs
-        if not known and nums["i"] == 0:
-            return "either"
-    else:
-        return "either"
-    if not known:
-        return "refuse" if exp == "reply" else "either"
+    # a known service is a supported request whatever its own path names: an unknown Tag / Object is answered
+    # by the Message Router with a CIP failure status inside a normal reply (service | 0x80, encapsulation status 0)
     return exp
 
 
@@ -725,7 +711,7 @@ class C06(Suite):
             "non-trivial = >= 2 requests answered in a session that also contains a failing, unregistering or "
             "state-changing request; distinct by case")
     assumptions = ["frames are complete (segmentation and truncation are C02's subject); one connection (C09)",
-                   "embedded requests address tag-holding objects or nothing (built-in Identity/TCPIP/Connection "
+                   "embedded requests address tag-holding objects or nothing that exists (built-in Identity/TCPIP/Connection "
                    "Manager services, Forward Open and connected (SendUnitData with a connection id) transport are "
                    "outside the model); service codes < 0x80",
                    "the random source of session handles is modelled as an arbitrary stream (scripted in the check)"]
